@@ -4,7 +4,7 @@
 //       one execution per line:  {"cfg":{"arch":"x64"|"a64","static":0|1,"logk":0|1|2,"validate":0|1,"perturb":0|1,
 //                                        "kinds":["asm","builder","compiler"]},
 //                                 "ops":[["Init",h],["ResetH",h,hard],["Reinit",h],["Attach",e,h],["Detach",e,h],
-//                                        ["HLog",h,on],["ELog",e,on],["HEh",h,on],["EEh",e,on],["Gen",e,p],["Fail",e],
+//                                        ["HLog",h,on],["ELog",e,on],["HEh",h,on],["EEh",e,on],["Gen",e,p],["Seal",h],["Fail",e],
 //                                        ["Destroy",e],["Create",e]]}
 //   lifecycle random <trace.ndjson> <executions> <actions>
 //       seeded random histories (legal w.r.t. spec/code/Lifecycle.tla), random configuration per execution
@@ -26,7 +26,7 @@
 using namespace asmjit;
 
 enum Kind { kAsm = 0, kBuilder = 1, kCompiler = 2 };
-static const char* kind_name(int k) { return k == kAsm ? "asm" : k == kBuilder ? "builder" : "compiler"; }
+static const char* kind_name(int k) { return k < 0 ? "seal" : k == kAsm ? "asm" : k == kBuilder ? "builder" : "compiler"; }
 static int kind_of(const std::string& s) { return s == "asm" ? kAsm : s == "builder" ? kBuilder : kCompiler; }
 
 static const int NPROG = 6;
@@ -43,9 +43,13 @@ struct ErrAcc {
 // =========================================================================================================
 // Programs (deterministic, parametrised only by the program id and by the holder's state = earlier calls)
 // =========================================================================================================
+// The lookup compares only the bytes of the name itself, so that what a program does never depends on the bytes a
+// Section happens to have after its name (CodeHolder::section_by_name() does; the digest reports such bytes).
 static Section* get_or_new_section(CodeHolder& code, const char* name, uint32_t align, int32_t order, ErrAcc& E) {
-  Section* s = code.section_by_name(name);
-  if (!s) E(code.new_section(Out(s), name, SIZE_MAX, SectionFlags::kNone, align, order));
+  size_t n = strlen(name);
+  for (Section* s : code.sections()) if (memcmp(s->name(), name, n) == 0 && s->alignment() == align && s->order() == order) return s;
+  Section* s = nullptr;
+  E(code.new_section(Out(s), name, SIZE_MAX, SectionFlags::kNone, align, order));
   return s;
 }
 
@@ -174,9 +178,9 @@ static void x86_p3(BaseEmitter* em, CodeHolder& code, unsigned k, ErrAcc& E) {
   LabelNode* ln = nullptr;
   E(b->new_label_node(Out(ln)));
   if (ln) b->add_before(ln, n3);
-  InstNode* in = nullptr;
-  E(b->new_inst_node(Out(in), x86::Inst::kIdXchg, InstOptions::kNone, 2));
-  if (in) { in->set_op(0, x86::ecx); in->set_op(1, x86::edx); b->add_after(in, n1); }
+  CommentNode* cn = nullptr;
+  E(b->new_comment_node(Out(cn), "inserted", 8));
+  if (cn) b->add_after(cn, n1);
   // a removed range
   BaseNode* c0 = b->cursor();
   E(x->int3()); BaseNode* r0 = b->cursor();
@@ -391,9 +395,9 @@ static void a64_p3(BaseEmitter* em, CodeHolder& code, unsigned k, ErrAcc& E) {
   LabelNode* ln = nullptr;
   E(b->new_label_node(Out(ln)));
   if (ln) b->add_before(ln, n3);
-  InstNode* in = nullptr;
-  E(b->new_inst_node(Out(in), a64::Inst::kIdMov, InstOptions::kNone, 2));
-  if (in) { in->set_op(0, a64::w6); in->set_op(1, a64::w7); b->add_after(in, n1); }
+  CommentNode* cn = nullptr;
+  E(b->new_comment_node(Out(cn), "inserted", 8));
+  if (cn) b->add_after(cn, n1);
   E(a->brk(1)); BaseNode* r0 = b->cursor();
   E(a->brk(2));
   E(a->brk(3)); BaseNode* r1 = b->cursor();
@@ -427,7 +431,11 @@ static void a64_func_spill(a64::Compiler& cc, unsigned k, ErrAcc& E, Label* self
   E(cc.ldr(f, c1));
   E(cc.fcvtzs(v[4], f));
   InvokeNode* inv = nullptr;
-  if (callee) E(cc.invoke(Out(inv), *callee, FuncSignature::build<uint32_t, uint32_t, uint32_t, void*>()));
+  if (callee) {
+    a64::Gp ct = cc.new_gp_ptr("ct");
+    E(cc.adr(ct, *callee));
+    E(cc.invoke(Out(inv), ct, FuncSignature::build<uint32_t, uint32_t, uint32_t, void*>()));
+  }
   else {
     a64::Gp ct = cc.new_gp_ptr("ct");
     E(cc.mov(ct, uint64_t(0x00007F2200001000ull)));
@@ -520,16 +528,22 @@ static void emit_program(Arch arch, BaseEmitter* em, CodeHolder& code, int prog,
 
 static const uint64_t kBase = 0x00007F1000000000ull;
 
-// emit + finalize + what JitRuntime::add() does with the holder (flatten, resolve, relocate)
+// emit (+ finalize for Builder/Compiler)
 static int g_last_err_idx = -1;
 static Error generate(Arch arch, BaseEmitter* em, int kind, CodeHolder& code, int prog) {
   ErrAcc E;
   emit_program(arch, em, code, prog, E);
   if (kind != kAsm) E(em->finalize());
+  g_last_err_idx = E.idx;
+  return E.first;
+}
+
+// what JitRuntime::add() does with a finished holder; flatten() and relocate_to_base() may be called once per content
+static Error seal(CodeHolder& code) {
+  ErrAcc E;
   E(code.flatten());
   E(code.resolve_cross_section_fixups());
   E(code.relocate_to_base(kBase));
-  g_last_err_idx = E.idx;
   return E.first;
 }
 
@@ -561,7 +575,7 @@ static std::string bounded_name(const char* p, size_t max) {
 }
 
 struct Digest {
-  std::string secs, labels, relocs, addrtab, image;   // line-oriented canonical text
+  std::string secs, labels, relocs, addrtab, image, secsn;   // line-oriented canonical text (secsn = secs without names)
   std::string err;
 };
 
@@ -572,7 +586,7 @@ static void walk_addr(const AddressTableEntry* n, std::vector<std::pair<uint64_t
   walk_addr(static_cast<const AddressTableEntry*>(n->right()), out, depth + 1);
 }
 
-static Digest digest_of(CodeHolder& code) {
+static Digest digest_of(CodeHolder& code, bool sealed) {
   Digest d;
   char b[256];
   for (Section* s : code.sections()) {
@@ -582,6 +596,11 @@ static Digest digest_of(CodeHolder& code) {
     d.secs += b;
     d.secs += hex(s->data(), s->buffer_size());
     d.secs += "\n";
+    snprintf(b, sizeof b, "sec %u flags=%u align=%u order=%d off=%llu vsize=%llu size=%zu bytes=", s->section_id(),
+             unsigned(s->flags()), s->alignment(), int(s->order()), (unsigned long long)s->offset(), (unsigned long long)s->virtual_size(), s->buffer_size());
+    d.secsn += b;
+    d.secsn += hex(s->data(), s->buffer_size());
+    d.secsn += "\n";
   }
   uint32_t id = 0;
   for (const LabelEntry& le : code.label_entries()) {
@@ -607,7 +626,8 @@ static Digest digest_of(CodeHolder& code) {
     d.addrtab += b;
     for (auto& e : ents) { snprintf(b, sizeof b, "addr %llx slot=%u\n", (unsigned long long)e.first, e.second); d.addrtab += b; }
   }
-  {
+  if (!sealed) d.image = "unsealed\n";
+  else {
     size_t n = code.code_size();
     snprintf(b, sizeof b, "image size=%zu\n", n);
     d.image += b;
@@ -679,7 +699,7 @@ static void priv_of(BaseEmitter* e, int kind, std::vector<long long>& out) {
   if (kind == kAsm) {
     BaseAssembler* a = static_cast<BaseAssembler*>(e);
     out.push_back(a->_section ? (long long)a->_section->section_id() : -1);
-    out.push_back(a->_buffer_data == nullptr && a->_buffer_ptr == nullptr && a->_buffer_end == nullptr ? 0 : 1);
+    out.push_back(!a->code() && (a->_buffer_data || a->_buffer_ptr || a->_buffer_end) ? 1 : 0);   // stale pointers after detach
     return;
   }
   BaseBuilder* b = static_cast<BaseBuilder*>(e);
@@ -763,7 +783,7 @@ struct Exec {
     }
     measure_fresh();
     w.beginObj().kv("e", "Reset");
-    w.key("cfg").beginObj().kv("arch", cfg.arch == Arch::kX64 ? "x64" : "a64").kv("static", cfg.static_arena).kv("logk", cfg.logk)
+    w.key("cfg").beginObj().kv("arch", cfg.arch == Arch::kX64 ? "x64" : "a64").kv("archid", int(cfg.arch)).kv("static", cfg.static_arena).kv("logk", cfg.logk)
       .kv("validate", cfg.validate).kv("perturb", cfg.perturb).endObj();
     w.key("kinds").beginArr();
     for (int k : cfg.kinds) w.val(kind_name(k));
@@ -798,7 +818,7 @@ struct Exec {
   void measure_fresh() {
     CodeHolder c;
     counts_of(c, fresh.h_uninit);
-    c.init(env());
+    c.init(env(), kBase);
     counts_of(c, fresh.h_init);
     for (int k = 0; k < 3; k++) {
       BaseEmitter* e = new_emitter(cfg.arch, k, false);
@@ -894,7 +914,7 @@ struct Exec {
   void tail(Error err) { w.kv("r", err == Error::kOk ? "Ok" : "Err").kv("code", unsigned(err)); proj(); w.endObj().emit(out); fflush(out); }
 
   // ---- actions ----
-  void a_init(int h) { head("Init"); w.kv("h", h); Error e = holder[h - 1]->init(env()); if (e == Error::kOk) gens[h - 1].clear(); tail(e); }
+  void a_init(int h) { head("Init"); w.kv("h", h); Error e = holder[h - 1]->init(env(), kBase); if (e == Error::kOk) gens[h - 1].clear(); tail(e); }
   void a_reset(int h, bool hard) {
     head("ResetH"); w.kv("h", h).kv("hard", hard);
     holder[h - 1]->reset(hard ? ResetPolicy::kHard : ResetPolicy::kSoft);
@@ -934,34 +954,28 @@ struct Exec {
     CodeHolder c;
     Digest d;
     ErrAcc E;
-    E(c.init(env()));
+    bool sealed = false;
+    E(c.init(env(), kBase));
     for (auto& kp : seq) {
+      if (kp.first < 0) { E(seal(c)); sealed = true; continue; }
       BaseEmitter* e = new_emitter(cfg.arch, kp.first, false);
       E(c.attach(e));
       E(generate(cfg.arch, e, kp.first, c, kp.second));
       delete e;
     }
-    d = digest_of(c);
+    d = digest_of(c, sealed);
     d.err = E.ok() ? "Ok" : "Err";
     return d;
   }
 
-  void a_gen(int e, int p) {
-    head("Gen");
-    BaseEmitter* emp = em[e - 1];
-    int h = holder_id(emp->code());
-    int kind = cfg.kinds[e - 1];
-    w.kv("em", e).kv("p", p).kv("h", h).kv("kind", kind_name(kind));
-    Error r = generate(cfg.arch, emp, kind, *holder[h - 1], p);
-    w.kv("erridx", g_last_err_idx);
-    gens[h - 1].emplace_back(kind, p);
-    Digest d = digest_of(*holder[h - 1]);
+  void log_digests(int h, bool sealed) {
+    Digest d = digest_of(*holder[h - 1], sealed);
     Digest f = fresh_run(gens[h - 1]);
     w.key("seq").beginArr();
     for (auto& kp : gens[h - 1]) { w.beginArr().val(kind_name(kp.first)).val(kp.second).endArr(); }
     w.endArr();
-    w.key("dig").beginArr().val(hash64(d.secs)).val(hash64(d.labels)).val(hash64(d.relocs)).val(hash64(d.addrtab)).val(hash64(d.image)).endArr();
-    w.key("fresh").beginArr().val(hash64(f.secs)).val(hash64(f.labels)).val(hash64(f.relocs)).val(hash64(f.addrtab)).val(hash64(f.image)).endArr();
+    w.key("dig").beginArr().val(hash64(d.secs)).val(hash64(d.labels)).val(hash64(d.relocs)).val(hash64(d.addrtab)).val(hash64(d.image)).val(hash64(d.secsn)).endArr();
+    w.key("fresh").beginArr().val(hash64(f.secs)).val(hash64(f.labels)).val(hash64(f.relocs)).val(hash64(f.addrtab)).val(hash64(f.image)).val(hash64(f.secsn)).endArr();
     w.kv("fr", f.err.c_str());
     std::string diff = first_diff("sections", d.secs, f.secs);
     if (diff.empty()) diff = first_diff("labels", d.labels, f.labels);
@@ -969,7 +983,28 @@ struct Exec {
     if (diff.empty()) diff = first_diff("addrtab", d.addrtab, f.addrtab);
     if (diff.empty()) diff = first_diff("image", d.image, f.image);
     if (!diff.empty()) w.kv("diff", diff.c_str());
+  }
+
+  void a_seal(int h) {
+    head("Seal"); w.kv("h", h);
+    Error r = seal(*holder[h - 1]);
+    gens[h - 1].emplace_back(-1, 0);
+    log_digests(h, true);
     w.kv("size", (long long)holder[h - 1]->code_size());
+    tail(r);
+  }
+
+  void a_gen(int e, int p) {
+    head("Gen");
+    BaseEmitter* emp = em[e - 1];
+    int kind = cfg.kinds[e - 1];
+    if (!emp || !emp->code() || prog_rank(p) > kind) { fprintf(stderr, "script error: Gen %d %d is not legal here\n", e, p); exit(3); }
+    int h = holder_id(emp->code());
+    w.kv("em", e).kv("p", p).kv("h", h).kv("kind", kind_name(kind));
+    Error r = generate(cfg.arch, emp, kind, *holder[h - 1], p);
+    w.kv("erridx", g_last_err_idx);
+    gens[h - 1].emplace_back(kind, p);
+    log_digests(h, false);
     tail(r);
   }
 
@@ -986,6 +1021,7 @@ struct Exec {
     else if (n == "HEh") a_heh(a, b != 0);
     else if (n == "EEh") a_eeh(a, b != 0);
     else if (n == "Gen") a_gen(a, b);
+    else if (n == "Seal") a_seal(a);
     else if (n == "Fail") a_fail(a);
     else if (n == "Destroy") a_destroy(a);
     else if (n == "Create") a_create(a);
@@ -1008,9 +1044,11 @@ static Cfg cfg_of(const vj::Value& v) {
 struct RandDriver {
   Exec& x;
   vj::Rng& r;
-  struct M { bool alive = true; int code = 0; bool used = false; };
+  struct M { bool alive = true; int code = 0; bool used = false; bool ja = false; };
+  bool avoid_ja = getenv("LC_AVOID_JA") != nullptr;   // known finding: a Compiler holding stale jump annotations must not create new ones
   std::vector<M> m;
   bool hinit[2] = {false, false};
+  bool sealed(int h) const { auto& g = x.gens[h - 1]; return !g.empty() && g.back().first < 0; }
   RandDriver(Exec& e, vj::Rng& rng) : x(e), r(rng), m(e.em.size()) {}
 
   void clear_used(int h) { for (auto& e : m) if (e.code == h) e.used = false; }
@@ -1043,47 +1081,82 @@ struct RandDriver {
     else if (c < 60) { if (me.alive) x.a_eeh(e, r.chance(2, 3)); }
     else if (c < 66) { if (me.alive) x.a_fail(e); }
     else if (c < 68) { if (me.alive) { x.a_destroy(e); me.alive = false; me.code = 0; me.used = false; } }
+    else if (c < 76) { if (hinit[h - 1] && !x.gens[h - 1].empty() && !sealed(h)) x.a_seal(h); }
     else {
       // generate through some emitter that may legally generate
       std::vector<int> cand;
       for (size_t i = 0; i < m.size(); i++) {
         int k = x.cfg.kinds[i];
-        if (m[i].alive && m[i].code && (k == kAsm || !m[i].used) && x.gens[m[i].code - 1].size() < 4) cand.push_back(int(i + 1));
+        if (m[i].alive && m[i].code && (k == kAsm || !m[i].used) && x.gens[m[i].code - 1].size() < 4 && !sealed(m[i].code)) cand.push_back(int(i + 1));
       }
       if (cand.empty()) return;
       e = cand[r.below(cand.size())];
       int k = x.cfg.kinds[e - 1];
       int p;
-      do { p = 1 + int(r.below(NPROG)); } while (prog_rank(p) > k);
+      do { p = 1 + int(r.below(NPROG)); } while (prog_rank(p) > k || (avoid_ja && p >= 5 && m[e - 1].ja));
       x.a_gen(e, p);
       m[e - 1].used = true;
+      if (p >= 5) m[e - 1].ja = true;
     }
   }
 };
+
+// Executions run in child processes (batches): a crash or sanitizer abort caused by one history must not hide the others.
+// The child appends to the shared trace file and counts started executions in shared memory; when it does not exit
+// cleanly the parent writes the ABORT line for the execution that was running and resumes with the next one.
+#include <sys/wait.h>
+#include <sys/mman.h>
+template<typename F>
+static void isolated(FILE* out, size_t n, size_t batch, F&& body) {
+  volatile size_t* started = (volatile size_t*)mmap(nullptr, 4096, PROT_READ | PROT_WRITE, MAP_SHARED | MAP_ANONYMOUS, -1, 0);
+  size_t i = 0;
+  while (i < n) {
+    size_t end = std::min(n, i + batch);
+    *started = i;
+    fflush(out);
+    pid_t pid = fork();
+    if (pid == 0) {
+      for (size_t k = i; k < end; k++) { *started = k + 1; body(k); }
+      fflush(out);
+      exit(0);          // runs the leak check of the sanitizer build
+    }
+    int st = 0;
+    waitpid(pid, &st, 0);
+    if (WIFEXITED(st) && WEXITSTATUS(st) == 0) { i = end; continue; }
+    fseek(out, 0, SEEK_END);
+    if (WIFSIGNALED(st)) fprintf(out, "\n{\"e\":\"ABORT\",\"why\":\"signal %d\"}\n", WTERMSIG(st));
+    else fprintf(out, "\n{\"e\":\"ABORT\",\"why\":\"exit code %d%s\"}\n", WEXITSTATUS(st), WEXITSTATUS(st) == 66 ? " (sanitizer report)" : "");
+    fflush(out);
+    size_t st_ = *started;
+    i = st_ > i + 1 ? st_ : i + 1;
+  }
+}
 
 int main(int argc, char** argv) {
   if (argc < 3) { fprintf(stderr, "usage: lifecycle script <in> <out> | random <out> <nexec> <nactions>\n"); return 3; }
   std::string mode = argv[1];
   if (mode == "script") {
     auto scripts = vj::read_ndjson(argv[2]);
-    FILE* out = fopen(argv[3], "w");
+    FILE* out = fopen(argv[3], "a");
     if (!out) { perror(argv[3]); return 3; }
+    if (ftruncate(fileno(out), 0) != 0) return 3;
     vj::install_abort_handlers(out);
-    uint64_t n = 0;
-    for (auto& s : scripts) {
-      Exec ex(out, cfg_of(s["cfg"]), vj::env_seed() * 1000003ull + n++);
+    isolated(out, scripts.size(), 40, [&](size_t k) {
+      auto& s = scripts[k];
+      Exec ex(out, cfg_of(s["cfg"]), vj::env_seed() * 1000003ull + k);
       for (auto& op : s["ops"].arr) ex.run_op(op);
-    }
+    });
     fclose(out);
     return 0;
   }
   if (mode == "random") {
-    FILE* out = fopen(argv[2], "w");
+    FILE* out = fopen(argv[2], "a");
     if (!out) { perror(argv[2]); return 3; }
+    if (ftruncate(fileno(out), 0) != 0) return 3;
     vj::install_abort_handlers(out);
     unsigned nexec = unsigned(atoi(argv[3])), nact = unsigned(atoi(argv[4]));
-    vj::Rng r(vj::env_seed());
-    for (unsigned i = 0; i < nexec; i++) {
+    isolated(out, nexec, 1, [&](size_t i) {
+      vj::Rng r(vj::env_seed() * 7919ull + i);
       Cfg c;
       c.arch = r.chance(1, 3) ? Arch::kAArch64 : Arch::kX64;
       c.static_arena = r.chance(1, 2);
@@ -1096,7 +1169,7 @@ int main(int argc, char** argv) {
       Exec ex(out, c, r.next());
       RandDriver d(ex, r);
       for (unsigned k = 0; k < nact; k++) d.step();
-    }
+    });
     fclose(out);
     return 0;
   }
